@@ -910,7 +910,7 @@ getlinkage(enum declkind kind, enum storageclass sc, struct decl *prior, bool fi
 	if (sc & SCSTATIC)
 		return filescope ? LINKINTERN : LINKNONE;
 	if (sc & SCEXTERN || kind == DECLFUNC)
-		return prior ? prior->linkage : LINKEXTERN;
+		return prior && prior->linkage != LINKNONE ? prior->linkage : LINKEXTERN;
 	return filescope ? LINKEXTERN : LINKNONE;
 }
 
